@@ -65,6 +65,8 @@ struct Gen {
             }
             if (r.chance(0.6)) { Group g = b.createGroup(nm("grp"), "nix.group"); g.addDataArray(arrays[mine[0]].a); }
         }
+        // a block that holds nothing but a multi tag and its positions (no reference): deleting the positions leaves a block without arrays
+        if (r.chance(0.4)) { Block b = f.createBlock(nm("lonely"), "nix.block"); DataArray pos = b.createDataArray(nm("positions"), "nix.positions", DataType::Double, NDSize{(ndsize_t)3}); pos.appendSetDimension(); MultiTag mt = b.createMultiTag(nm("mtag"), "nix.mtag", pos); mtags.push_back(mt); mtag_arr.push_back((size_t)-1); }
         int ns = 1 + (int)r.u(3); for (int i = 0; i < ns; i++) { Section s = f.createSection(nm("sec"), "nix.section"); Property p = s.createProperty(nm("prop"), Variant(1.5)); p.unit("mV"); if (r.chance(0.5)) { Section sub = s.createSection(nm("sec"), "nix.section"); Property q = sub.createProperty(nm("prop"), Variant("text")); q.unit("s"); } }
     }
 
@@ -95,7 +97,7 @@ struct Gen {
                     auto taken = [&](const std::string &id) { for (auto &o : out) if (o.entity_id == id) return true; return false; };
                     // the breached entry must face a dimension that has a unit (entries facing a set / data-frame dimension are not compared)
                     auto pick_dim = [&](const Arr &A, size_t n, size_t &which, bool &behind) { std::vector<size_t> cand; for (size_t d = 0; d < n && d < A.units.size(); d++) if (!A.units[d].empty()) cand.push_back(d); if (cand.empty()) return false; which = r.pick(cand); behind = false; for (size_t d = 0; d < which; d++) if (A.units[d].empty()) behind = true; return true; };
-                    if (use_m) { size_t ti = r.u(mtags.size()); MultiTag &mt = mtags[ti]; if (taken(mt.id()) || !mt.positions()) continue; u = mt.units(); if (u.empty()) continue; const Arr &A = arrays[mtag_arr[ti]]; bool behind = false; if (!pick_dim(A, u.size(), which, behind)) continue; std::string base = A.units[which].substr(A.units[which].size() - 1); u[which] = base == "V" ? "ms" : "mV"; c.op(std::string("breach tag-unit-not-convertible multi_tag") + (behind ? " behind-unitless-dimension" : "") + " | unit " + str(which + 1) + " of " + str(u.size())); mt.units(u); out.push_back({"tag-unit/unit" + str(which + 1) + "of" + str(u.size()) + (behind ? "/behind-unitless-dimension" : ""), mt.id(), true, false, nullptr}); return true; }
+                    if (use_m) { size_t ti = r.u(mtags.size()); MultiTag &mt = mtags[ti]; if (taken(mt.id()) || !mt.positions() || mtag_arr[ti] == (size_t)-1) continue; u = mt.units(); if (u.empty()) continue; const Arr &A = arrays[mtag_arr[ti]]; bool behind = false; if (!pick_dim(A, u.size(), which, behind)) continue; std::string base = A.units[which].substr(A.units[which].size() - 1); u[which] = base == "V" ? "ms" : "mV"; c.op(std::string("breach tag-unit-not-convertible multi_tag") + (behind ? " behind-unitless-dimension" : "") + " | unit " + str(which + 1) + " of " + str(u.size())); mt.units(u); out.push_back({"tag-unit/unit" + str(which + 1) + "of" + str(u.size()) + (behind ? "/behind-unitless-dimension" : ""), mt.id(), true, false, nullptr}); return true; }
                     size_t ti = r.u(tags.size()); Tag &tg = tags[ti]; if (taken(tg.id())) continue; u = tg.units(); if (u.empty()) continue; const Arr &A = arrays[tag_arr[ti]]; bool behind = false; if (!pick_dim(A, u.size(), which, behind)) continue; std::string base = A.units[which].substr(A.units[which].size() - 1); u[which] = base == "V" ? "ms" : "mV"; c.op(std::string("breach tag-unit-not-convertible tag") + (behind ? " behind-unitless-dimension" : "") + " | unit " + str(which + 1) + " of " + str(u.size())); tg.units(u); out.push_back({"tag-unit/unit" + str(which + 1) + "of" + str(u.size()) + (behind ? "/behind-unitless-dimension" : ""), tg.id(), true, false, nullptr}); return true; }
                 return false; }
             case 9: {   // unsorted ticks through the public API: the data of an aliased array
